@@ -151,6 +151,21 @@ impl Prop for C15 {
                 },
             ));
         }
+        {
+            let langs = langs.clone();
+            f.push(Family::new(
+                "negative-duration",
+                Mode::Full,
+                "durations below zero whose printed form has one or several parts: '-S seconds' for S in [1, 59, 60, 90, 3600, 5400, 86399, 90061, 694861, 34300861] and '10 seconds - S seconds', in every language (the language's own word): whatever the printed form of a negative duration is, typed back in it prints the same",
+                move |ch| {
+                    let l = ch.pick(&langs).clone();
+                    let s = *ch.pick(&[1i64, 59, 60, 90, 3600, 5400, 86399, 90061, 694861, 34300861]);
+                    let word = dur::spellings(&l, dur::Unit::Second).into_iter().next().unwrap_or_else(|| "seconds".into());
+                    let line = if ch.flag() { format!("-{} {}", s, word) } else { format!("10 {} - {} {}", word, s + 10, word) };
+                    Some(Case { kind: "negative-duration".into(), cfg: Cfg::default(), lang: l, line })
+                },
+            ));
+        }
         // times with zones -----------------------------------------------------------------
         {
             let zones: Vec<String> = match tier {
